@@ -70,7 +70,7 @@ def gen_case(ctx, k):
     state = [float(rng.choice([0, 0, 1, 2, 3, 5, 8, 13])) for _ in range(ns * n)]
     case = {"net": net, "space": space, "kind": kind, "option": option, "seed": rng.randint(0, 2 ** 31 - 1),
             "dt": 1 / 2048, "tmax": 1e9, "state": state,
-            "max_iter": ctx.n(120, 3000) if option == "gillespie" else ctx.n(12, 120),
+            "max_iter": ctx.n(120, 2500) if option == "gillespie" else ctx.n(12, 120),
             "edge": info["edge"] if kind == "grid" else list(info["edge"])}
     if cls in (1, 7) and kind == "graph" and option == "tauleap":
         # low copy numbers, diffusion dominated, many steps: nodes run empty and fill again
@@ -268,7 +268,7 @@ def check_tauleap(ctx, case, res, rates, stats):
 
 
 def run(ctx):
-    nscripts = ctx.n(48, 600)
+    nscripts = ctx.n(48, 420)
     cases = [gen_case(ctx, k) for k in range(nscripts)]
     total_model_steps = ctx.n(4000, 90000)
     per_script = max(10, total_model_steps // nscripts)
